@@ -1,8 +1,205 @@
 import JunoModel.C10.Proofs
-/-! C10 — property theorems. -/
+/-!
+C10 — Merkle proofs verify against the root and cannot be forged by tampering.
+Property theorems only (lemmas are in `Proofs.lean`).  Every theorem here is an obligation listed in
+evidence/C10.json with its axioms.
+
+Setting.  `A : HashAlg H` is the hash primitive; `Ideal A` says binary and edge node hashes are
+injective, never collide with each other and never equal the zero felt; `Acyclic A` says there are
+no hash cycles.  Both hold in the free term algebra (`freeAlg_is_ideal`).  `Tree`/`Trie` is what
+both tries denote, `Tree.proveNodes` transcribes the two provers (`legacy = true`: `core/trie`,
+`false`: `core/trie2`), `verifyL` = `trie.VerifyProof`, `verify2` = `trie2.VerifyProof`.  `cfg : Cfg`
+selects the variant of the verifiers: `Cfg.asIs` is the code at the pinned commit, `Cfg.strict` the
+code with the three repairs of proposed-fixes/C10-*.diff; the harness probes the real code and
+records which variant the correspondence was run against.  Heights are `0 < n < 256` (path
+positions are `uint8` in Go; juno uses 251).
+-/
 namespace Juno.C10.Props
 open Juno.C10
 
-example : verifyL freeAlg (Trie.hash freeAlg (none : Trie HTerm)) [true] [] = .notFound := by decide
+variable {H : Type} [DecidableEq H]
+
+/-! ## Completeness: the proof the node produces verifies to the actual value or absence -/
+
+/-- `trie.VerifyProof` accepts the proof produced by either prover for ANY key — present, absent
+with the divergence inside an edge / at a binary node / at the root / at a leaf — of any non-empty
+trie, and returns the key's value (zero = absent).  More generally it accepts every
+self-consistent node set that contains the proof (RPC merges the proofs of several keys into one
+set).  Holds for every variant `cfg`. -/
+theorem proof_complete_legacy (A : HashAlg H) (hI : Ideal A) (cfg : Cfg) (t : Tree H) (n : Nat)
+    (hwf : WF t n) (hn : 0 < n) (h256 : n < 256) (k : Path) (hk : k.length = n)
+    (legacy cached : Bool) (P : PSet H)
+    (hsub : ∀ nd ∈ t.proveNodes A legacy cached k, (nd.hash A, nd) ∈ P)
+    (hcons : ∀ e ∈ P, e.1 = e.2.hash A) :
+    verifyL A cfg (t.hash A) k P = Res.ok (t.get A k) :=
+  legacy_complete_tree hI cfg t n hwf hn h256 k hk legacy cached P hsub hcons
+
+/-- `trie2.VerifyProof` accepts every node set that returns the honest proof nodes for their
+hashes, for any key of any non-empty trie (no assumption on the hash needed beyond `Ideal` for the
+zero-root test), for every variant `cfg`, with or without cached hash flags in the nodes. -/
+theorem proof_complete_trie2 (A : HashAlg H) (hI : Ideal A) (cfg : Cfg) (t : Tree H) (n : Nat)
+    (hwf : WF t n) (hn : 0 < n) (h256 : n < 256) (k : Path) (hk : k.length = n)
+    (legacy cached : Bool) (P : PSet H)
+    (hlook : ∀ nd ∈ t.proveNodes A legacy cached k, P.get (nd.hash A) = some nd) :
+    verify2 A cfg (t.hash A) k P = Res.ok (t.get A k) :=
+  trie2_complete_tree hI cfg t n hwf hn h256 k hk legacy cached P hlook
+
+/-- …in particular the node set `Prove` returns (no hash cycles ⇒ the set returns each honest node
+for its hash). -/
+theorem proof_complete_trie2_exact (A : HashAlg H) (hI : Ideal A) (hac : Acyclic A) (cfg : Cfg)
+    (t : Tree H) (n : Nat) (hwf : WF t n) (hn : 0 < n) (h256 : n < 256) (k : Path)
+    (hk : k.length = n) (cached : Bool) :
+    verify2 A cfg (t.hash A) k (Trie.prove A false cached (some t) k) = Res.ok (t.get A k) :=
+  trie2_complete_tree hI cfg t n hwf hn h256 k hk false cached _ (honest_lookup hac false cached t k)
+
+/-- Full strength (empty trie included) for the repaired verifiers: for every trie, empty or not,
+and every key, both verifiers accept the proof the prover returns and report the actual value. -/
+theorem proof_complete (A : HashAlg H) (hI : Ideal A) (hac : Acyclic A) (cfg : Cfg)
+    (hz : cfg.zeroRoot = true) (t : Trie H) (n : Nat) (hwf : Trie.WF t n) (hn : 0 < n) (h256 : n < 256)
+    (k : Path) (hk : k.length = n) (cached : Bool) :
+    verifyL A cfg (t.hash A) k (t.prove A true cached k) = Res.ok (t.get A k) ∧
+    verify2 A cfg (t.hash A) k (t.prove A false cached k) = Res.ok (t.get A k) := by
+  cases t with
+  | none => simp [Trie.hash, Trie.get, verifyL, verify2, hz]
+  | some s =>
+    exact ⟨legacy_complete_tree hI cfg s n hwf hn h256 k hk true cached _
+        (fun nd hnd => List.mem_map.mpr ⟨nd, hnd, rfl⟩) (toPSet_consistent _),
+      trie2_complete_tree hI cfg s n hwf hn h256 k hk false cached _
+        (honest_lookup hac false cached s k)⟩
+
+/- The same statement for the code as it is (`cfg.zeroRoot = false`) is FALSE on the empty trie;
+what holds is `proof_complete_partial` (non-empty tries) and the negation below. -/
+
+/-- Code as it is: completeness for every NON-EMPTY trie (missing: the empty trie). -/
+theorem proof_complete_partial (A : HashAlg H) (hI : Ideal A) (hac : Acyclic A) (t : Tree H)
+    (n : Nat) (hwf : WF t n) (hn : 0 < n) (h256 : n < 256) (k : Path) (hk : k.length = n)
+    (cached : Bool) :
+    verifyL A Cfg.asIs (t.hash A) k (Trie.prove A true cached (some t) k) = Res.ok (t.get A k) ∧
+    verify2 A Cfg.asIs (t.hash A) k (Trie.prove A false cached (some t) k) = Res.ok (t.get A k) :=
+  ⟨legacy_complete_tree hI _ t n hwf hn h256 k hk true cached _
+      (fun nd hnd => List.mem_map.mpr ⟨nd, hnd, rfl⟩) (toPSet_consistent _),
+    trie2_complete_tree hI _ t n hwf hn h256 k hk false cached _ (honest_lookup hac false cached t k)⟩
+
+/-- DEFECT (known finding `*:honest-empty-trie:rejected-by-own-verifier`): with the code as it is
+both verifiers reject the (empty) proof of the empty trie for every key, in every hash algebra. -/
+theorem empty_trie_proof_rejected (A : HashAlg H) (k : Path) (legacy cached : Bool) :
+    verifyL A Cfg.asIs (Trie.hash A none) k (Trie.prove A legacy cached none k) = Res.notFound ∧
+    verify2 A Cfg.asIs (Trie.hash A none) k (Trie.prove A legacy cached none k) = Res.notFound := by
+  simp [verifyL, verify2, Cfg.asIs, Trie.prove, verifyFuel, verifyLAux, verify2Aux, PSet.get]
+
+/-! ## Soundness: whatever node set is offered, an accepted value is the actual one -/
+
+/-- `trie.VerifyProof`, every variant: if ANY node set makes the verifier return `v` for key `k`
+against root `r`, then every trie of height `n` with root `r` (empty or not) holds exactly `v` at
+`k` (`v = zero` ⇔ absent). -/
+theorem proof_sound_legacy (A : HashAlg H) (hI : Ideal A) (cfg : Cfg) (n : Nat) (hn : 0 < n)
+    (h256 : n < 256) (r : H) (k : Path) (hk : k.length = n) (P : PSet H) (v : H)
+    (h : verifyL A cfg r k P = Res.ok v) :
+    ∀ t : Trie H, Trie.WF t n → t.hash A = r → t.get A k = v := by
+  intro t hwf hr
+  subst hr
+  exact (legacy_sound hI cfg t n hwf hn h256 k hk P v h).symm
+
+/-- `trie2.VerifyProof`, repaired variant (`Cfg.strict`): sound against every node set, whatever
+the Go types of the children and whatever cached hash flags the nodes carry. -/
+theorem proof_sound_trie2 (A : HashAlg H) (hI : Ideal A) (n : Nat) (hn : 0 < n) (r : H) (k : Path)
+    (hk : k.length = n) (P : PSet H) (v : H) (h : verify2 A Cfg.strict r k P = Res.ok v) :
+    ∀ t : Trie H, Trie.WF t n → t.hash A = r → t.get A k = v := by
+  intro t hwf hr
+  subst hr
+  exact (trie2_sound hI Cfg.strict t n hwf hn k hk P (by simp [Cfg.strict]) (by simp [Cfg.strict])
+    v h).symm
+
+/-- `trie2.VerifyProof`, any variant, in particular the code as it is: sound against node sets in
+which no node carries a cached hash flag (if the variant trusts the flag) and no child is typed as
+a value node (if the variant lets a value node end the walk) — i.e. what a decoder of the wire
+format (felts only, as in the RPC response) produces.  Missing for `Cfg.asIs`: node sets with
+cached flags or value-typed children; `cached_hash_forgery` and `value_retype_forgery` show that
+the hypotheses cannot be dropped. -/
+theorem proof_sound_trie2_partial (A : HashAlg H) (hI : Ideal A) (cfg : Cfg) (n : Nat) (hn : 0 < n)
+    (r : H) (k : Path) (hk : k.length = n) (P : PSet H)
+    (hcache : cfg.trustCache = true → ∀ e ∈ P, e.2.cache = none)
+    (hval : cfg.earlyValue = true → ∀ e ∈ P, e.2.noValue) (v : H)
+    (h : verify2 A cfg r k P = Res.ok v) :
+    ∀ t : Trie H, Trie.WF t n → t.hash A = r → t.get A k = v := by
+  intro t hwf hr
+  subst hr
+  exact (trie2_sound hI cfg t n hwf hn k hk P hcache hval v h).symm
+
+/-! ## Tampering -/
+
+/-- Altering a node, the claimed value or the key: whatever is done to the node set and whichever
+key it is offered for, the verifier fails or still reports the trie's actual content for that key —
+it never confirms a value `v` the trie does not hold. -/
+theorem tamper_rejected (A : HashAlg H) (hI : Ideal A) (cfg : Cfg) (t : Trie H) (n : Nat)
+    (hwf : Trie.WF t n) (hn : 0 < n) (h256 : n < 256) (k' : Path) (hk : k'.length = n) (P' : PSet H)
+    (v : H) (hv : v ≠ t.get A k') :
+    verifyL A cfg (t.hash A) k' P' ≠ Res.ok v ∧ verify2 A Cfg.strict (t.hash A) k' P' ≠ Res.ok v :=
+  ⟨fun h => hv (legacy_sound hI cfg t n hwf hn h256 k' hk P' v h),
+   fun h => hv (trie2_sound hI Cfg.strict t n hwf hn k' hk P' (by simp [Cfg.strict])
+     (by simp [Cfg.strict]) v h)⟩
+
+/-- Two node sets accepted for the same root and key give the same answer: an altered proof that
+still verifies has not changed what is proved. -/
+theorem tamper_cannot_change_result (A : HashAlg H) (hI : Ideal A) (cfg : Cfg) (t : Trie H) (n : Nat)
+    (hwf : Trie.WF t n) (hn : 0 < n) (h256 : n < 256) (k : Path) (hk : k.length = n) (P P' : PSet H)
+    (v v' : H) (h : verifyL A cfg (t.hash A) k P = Res.ok v)
+    (h' : verifyL A cfg (t.hash A) k P' = Res.ok v') : v = v' :=
+  (legacy_sound hI cfg t n hwf hn h256 k hk P v h).trans
+    (legacy_sound hI cfg t n hwf hn h256 k hk P' v' h').symm
+
+/-! ## Non-vacuity and the defects of `trie2.VerifyProof` as it is, on a concrete trie -/
+
+/-- The hypotheses on the hash are satisfiable: the free term algebra is ideal and acyclic. -/
+theorem freeAlg_is_ideal : Ideal freeAlg ∧ Acyclic freeAlg := ⟨freeAlg_ideal, freeAlg_acyclic⟩
+
+/-- height 3: 001 ↦ 7 (edge of length 2 under the root), 101 ↦ 5, 110 ↦ 8, 111 ↦ 9 -/
+def exTree : Tree HTerm :=
+  .bin (.edge [false, true] (.leaf (.felt 7)))
+       (.bin (.edge [true] (.leaf (.felt 5))) (.bin (.leaf (.felt 8)) (.leaf (.felt 9))))
+
+example : WF exTree 3 :=
+  .bin (.edge (p := [false, true]) (by simp) (.leaf _))
+    (.bin (.edge (p := [true]) (by simp) (.leaf _)) (.bin (.leaf _) (.leaf _)))
+
+-- honest proofs of present keys and of absent keys (divergence inside the edge, at the last bit)
+example : verifyL freeAlg Cfg.asIs (exTree.hash freeAlg) [true, true, false]
+    (Trie.prove freeAlg true false (some exTree) [true, true, false]) = .ok (.felt 8) := by decide
+example : verify2 freeAlg Cfg.asIs (exTree.hash freeAlg) [false, false, true]
+    (Trie.prove freeAlg false true (some exTree) [false, false, true]) = .ok (.felt 7) := by decide
+example : verify2 freeAlg Cfg.strict (exTree.hash freeAlg) [false, true, true]
+    (Trie.prove freeAlg false true (some exTree) [false, true, true]) = .ok (.felt 0) := by decide
+example : verifyL freeAlg Cfg.asIs (exTree.hash freeAlg) [true, false, false]
+    (Trie.prove freeAlg true false (some exTree) [true, false, false]) = .ok (.felt 0) := by decide
+
+/-- the proof of 110 with the value in the last node replaced by 666, cached hash flag kept -/
+def forgedCached : PSet HTerm :=
+  match Trie.prove freeAlg false true (some exTree) [true, true, false] with
+  | [a, b, (h, .bin _ r c)] => [a, b, (h, .bin ⟨.value, .felt 666⟩ r c)]
+  | p => p
+
+/-- DEFECT (known finding `trie2:altered-node-with-stale-cached-hash:accepted`): the code as it is
+accepts the altered proof and reports the forged value. -/
+theorem cached_hash_forgery :
+    verify2 freeAlg Cfg.asIs (exTree.hash freeAlg) [true, true, false] forgedCached = .ok (.felt 666) ∧
+    exTree.get freeAlg [true, true, false] = .felt 8 ∧
+    verify2 freeAlg Cfg.strict (exTree.hash freeAlg) [true, true, false] forgedCached = .mismatch := by
+  decide
+
+/-- the proof of 110 without cached flags, the on-path child of the root re-typed as a value node -/
+def forgedRetyped : PSet HTerm :=
+  match Trie.prove freeAlg false false (some exTree) [true, true, false] with
+  | (h, .bin l r c) :: rest => (h, .bin l ⟨.value, r.h⟩ c) :: rest
+  | p => p
+
+/-- DEFECT (known finding `trie2:hash-child-retyped-as-value:accepted`): every node still hashes to
+its key, yet the code as it is returns the hash of an inner node as the value of key 110. -/
+theorem value_retype_forgery :
+    (∀ e ∈ forgedRetyped, e.1 = e.2.hash freeAlg) ∧
+    verify2 freeAlg Cfg.asIs (exTree.hash freeAlg) [true, true, false] forgedRetyped =
+      .ok ((Tree.bin (.edge [true] (.leaf (.felt 5))) (.bin (.leaf (.felt 8)) (.leaf (.felt 9)))).hash freeAlg) ∧
+    exTree.get freeAlg [true, true, false] = .felt 8 ∧
+    verify2 freeAlg Cfg.strict (exTree.hash freeAlg) [true, true, false] forgedRetyped = .earlyValue := by
+  decide
 
 end Juno.C10.Props
